@@ -5,6 +5,9 @@
 //! C04's subject). A requester thread issues `cancel_all_streams()` or `gracefully_end_stream(id, ZERO)` (driven on a
 //! paused-time current-thread tokio runtime inside that thread, so its 1 ms sleeps take no wall-clock time) at a
 //! scheduler-chosen moment; producers send before and after.
+//! Replacement (some `gracefully_end_stream` runs on a channel that is at MAX_STREAMS): as soon as a targeted stream has ended and been dropped, its
+//! thread creates a new stream -- which gets the recycled id while the request may still be waiting for that id to become vacant -- and polls it: the
+//! replacement was never told to end, so it must never answer end-of-stream and (Multi) must receive what is sent during its lifetime.
 
 use crate::chan::{self, Kind};
 use crate::common::{draw_strategy, file_violation, run_loop, Acc, Args};
@@ -22,13 +25,15 @@ pub enum Req { CancelAll, End(Vec<usize>) }
 #[derive(Clone, Debug)]
 pub struct Cfg { pub kind: Kind, pub n: usize, pub m: usize, pub streams: usize, pub req: Req, pub entries: Vec<Entry>, pub per_prod: u32, pub prefill: u32, pub delay: u32, pub fresh_wakers: bool,
     /// streams created first (they get the lowest ids) and dropped -- neither cancelled nor ended -- before the run starts
-    pub predropped: usize }
+    pub predropped: usize,
+    /// a targeted stream's thread creates a replacement stream (recycled id) right after dropping the ended one
+    pub replace: bool }
 impl Cfg {
     pub fn targeted(&self, i: usize) -> bool { match &self.req { Req::CancelAll => true, Req::End(v) => v.contains(&i) } }
     pub fn json(&self) -> J {
         J::obj().with("kind", J::s(self.kind.name())).with("N", J::i(self.n as i64)).with("M", J::i(self.m as i64)).with("streams", J::i(self.streams as i64))
             .with("request", J::s(format!("{:?}", self.req))).with("producers", J::Arr(self.entries.iter().map(|e| J::s(e.name())).collect()))
-            .with("events_per_producer", J::i(self.per_prod as i64)).with("prefill", J::i(self.prefill as i64)).with("requester_delay_steps", J::i(self.delay as i64)).with("fresh_wakers", J::Bool(self.fresh_wakers)).with("streams_created_first_and_dropped_uncancelled_before_the_run", J::i(self.predropped as i64))
+            .with("events_per_producer", J::i(self.per_prod as i64)).with("prefill", J::i(self.prefill as i64)).with("requester_delay_steps", J::i(self.delay as i64)).with("fresh_wakers", J::Bool(self.fresh_wakers)).with("streams_created_first_and_dropped_uncancelled_before_the_run", J::i(self.predropped as i64)).with("ended_streams_replaced_at_once_by_new_ones", J::Bool(self.replace))
     }
 }
 
@@ -53,7 +58,8 @@ pub fn draw_cfg(rng: &mut Rng, only: Option<&str>) -> Cfg {
     let mut es = entries_for(kind); es.retain(|e| *e != Entry::SendAsyncSuspended);
     let entries: Vec<Entry> = (0..nprod).map(|_| *rng.pick(&es)).collect();
     let predropped = if kind != Kind::MultiMmap && streams < m && rng.chance(1, 3) { 1 + rng.below((m - streams) as u64) as usize } else { 0 };
-    Cfg { kind, n, m, streams, req, entries, per_prod, prefill, delay: rng.below(40) as u32, fresh_wakers: rng.chance(1, 3), predropped }
+    let replace = matches!(req, Req::End(_)) && streams == m && rng.chance(1, 2);
+    Cfg { kind, n, m, streams, req, entries, per_prod, prefill, delay: rng.below(40) as u32, fresh_wakers: rng.chance(1, 3), predropped, replace }
 }
 
 pub fn block_on_paused<F: std::future::Future>(f: F) -> F::Output {
@@ -79,15 +85,34 @@ pub fn one_run(cfg: &Cfg, rc: &RunCfg, acc: &mut Acc) -> (Option<J>, u64, bool) 
     let req_called = Arc::new(AtomicU64::new(0));
     let end_answers = Arc::new(std::sync::Mutex::new(Vec::<(usize, bool)>::new()));
     let mut bodies: Vec<Body> = Vec::new();
+    let prod_done = Arc::new(AtomicU32::new(0));
+    let nprod = cfg.entries.len() as u32;
+    // per targeted stream: the log of its replacement and (creation returned, dropped) stamps
+    let rlogs: Vec<Arc<ConsLog>> = (0..cfg.streams).map(|_| Arc::new(ConsLog::default())).collect();
+    let rborn: Vec<Arc<AtomicU64>> = (0..cfg.streams).map(|_| Arc::new(AtomicU64::new(0))).collect();
+    if cfg.replace { acc.count("runs_in_which_ended_streams_are_replaced_at_once(recycled_id)", 1) }
     for (i, (s, l)) in strms.into_iter().zip(clogs.iter()).enumerate() {
-        if cfg.targeted(i) { bodies.push(driven_consumer_body(s, cfg.fresh_wakers, Hold::Release, l.clone())) }
+        if cfg.targeted(i) && cfg.replace {
+            let inner = driven_consumer_body(s, cfg.fresh_wakers, Hold::Release, l.clone());
+            let (ch2, rl, rb, pd, l2) = (ch.clone(), rlogs[i].clone(), rborn[i].clone(), prod_done.clone(), l.clone());
+            bodies.push(Box::new(move || {
+                inner();
+                if !l2.ended.load(SeqCst) { return }          // (it gave up at quiescence: reported below)
+                let s = ch2.create_stream();
+                rb.store(stamp(), SeqCst);
+                sched::op_done();
+                // polls until the producers are done and it found nothing twice (it does not wait for the requester, which may be waiting for this very id)
+                polling_consumer_body(s, Hold::Release, rl, Arc::new(move || pd.load(SeqCst) == nprod))();
+            }));
+        }
+        else if cfg.targeted(i) { bodies.push(driven_consumer_body(s, cfg.fresh_wakers, Hold::Release, l.clone())) }
         else { let d = done.clone(); bodies.push(polling_consumer_body(s, Hold::Release, l.clone(), Arc::new(move || d.load(SeqCst) == n_to_wait))) }
     }
     for (p, (e, l)) in cfg.entries.iter().zip(plogs.iter()).enumerate() {
         let ids: Vec<u64> = (0..cfg.per_prod as u64).map(|i| ((p as u64 + 1) << 8) | (i + 1)).collect();
         let inner = producer_body(ch.clone(), *e, ids, 2, l.clone());
-        let d = done.clone();
-        bodies.push(Box::new(move || { let _g = OnExit(Some(move || { d.fetch_add(1, SeqCst); })); inner() }));
+        let d = done.clone(); let pd = prod_done.clone();
+        bodies.push(Box::new(move || { let _g = OnExit(Some(move || { d.fetch_add(1, SeqCst); pd.fetch_add(1, SeqCst); })); inner() }));
     }
     {
         let (ch, d, rr, rcall, cfg2, ids, ea) = (ch.clone(), done.clone(), req_returned.clone(), req_called.clone(), cfg.clone(), stream_ids.clone(), end_answers.clone());
@@ -142,6 +167,25 @@ pub fn one_run(cfg: &Cfg, rc: &RunCfg, acc: &mut Acc) -> (Option<J>, u64, bool) 
         }
         if parked_at_request > 0 { acc.count("targeted_streams_that_had_parked_before_the_request", parked_at_request) }
         for (i, ok) in end_answers.lock().unwrap().iter() { if !ok { probs.push(("end_stream_false".into(), format!("gracefully_end_stream(stream {i}, unbounded timeout) answered false"))) } }
+        // a stream that was never told to end must not answer end-of-stream: the untargeted ones, and the replacements of ended ones
+        for (i, l) in clogs.iter().enumerate() { if !cfg.targeted(i) && l.ended.load(SeqCst) { probs.push(("untargeted_ended".into(), format!("stream {i}, which was not told to end, answered end-of-stream"))) } }
+        for (i, l) in rlogs.iter().enumerate() {
+            let born = rborn[i].load(SeqCst);
+            if born == 0 { continue }
+            acc.count("replacement_streams_created_on_a_recycled_id", 1);
+            if l.stream_id.load(SeqCst) == stream_ids[i] { acc.count("replacement_streams_that_got_the_id_of_the_ended_stream", 1) }
+            if born < t_ret || t_ret == 0 { acc.count("replacement_streams_created_while_the_request_was_still_in_progress", 1) }
+            if l.ended.load(SeqCst) { probs.push(("untargeted_ended".into(), format!("the stream created (id {}) after targeted stream {i} (id {}) had ended and been dropped was never told to end, yet it answered end-of-stream", l.stream_id.load(SeqCst), stream_ids[i]))) }
+            else if cfg.kind.is_multi() && rep.outcome == Outcome::Done {
+                // everything whose send started after the replacement's creation had returned was sent during its lifetime
+                let got: HashSet<u64> = l.ids().into_iter().collect();
+                let drops: Vec<(u64, u64)> = clogs.iter().chain(rlogs.iter()).filter_map(|l| *l.drop_span.lock().unwrap()).collect();
+                for pl in &plogs { for c in pl.calls.lock().unwrap().iter() { if c.3 && c.1 > born && !got.contains(&c.0) {
+                    let overlap = drops.iter().any(|d| c.1 < d.1 && d.0 < c.2);
+                    probs.push((if overlap { "untargeted_missed_event_sent_during_a_listener_drop" } else { "untargeted_missed" }.into(), format!("the replacement of stream {i} never yielded event {}, whose send started after the replacement's creation had returned", c.0)));
+                } } }
+            }
+        }
         // streams that were not targeted keep receiving
         let mut accepted: Vec<u64> = accepted_prefill.clone();
         for l in &plogs { accepted.extend(l.accepted.lock().unwrap().iter()) }
@@ -159,7 +203,7 @@ pub fn one_run(cfg: &Cfg, rc: &RunCfg, acc: &mut Acc) -> (Option<J>, u64, bool) 
                     }
                 }
             } else {
-                let got: HashSet<u64> = clogs.iter().flat_map(|l| l.ids()).collect();
+                let got: HashSet<u64> = clogs.iter().chain(rlogs.iter()).flat_map(|l| l.ids()).collect();
                 let miss: Vec<u64> = accepted.iter().copied().filter(|a| !got.contains(a)).collect();
                 if !miss.is_empty() { probs.push(("untargeted_missed".into(), format!("events {:?} were never yielded although stream(s) {:?} were not told to end and kept polling", miss, untargeted))) }
             }
